@@ -37,7 +37,9 @@ def _block(draw, bits=None):
         return {'shape': 'sparse-list', 'values': draw(st.lists(val, min_size=n, max_size=n)), 'bits': bits}
     base = draw(st.one_of(st.integers(0, 10), st.integers(0, 65500)))
     offs = draw(st.lists(st.integers(0, 40), min_size=1, max_size=25, unique=True))
-    keys = sorted(base + o for o in offs)
+    keys = [base + o for o in offs]          # insertion order as generated: the first key need not be the smallest
+    if draw(st.booleans()):
+        keys = sorted(keys)
     return {'shape': 'sparse-dict', 'keys': keys, 'values': draw(st.lists(val, min_size=len(keys), max_size=len(keys))), 'bits': bits}
 
 
